@@ -159,9 +159,12 @@ def gen(tier, seed):
             for i2, d in enumerate(nd.decls):
                 if d.typ == 'func' and rng.random() < 0.6:
                     fpfs.append(['%s:%d' % (nd.loc, i2), nd.loc, i2, d.name, depth])
+        # single options printed on their own (cfg_opt_print / cfg_opt_print_indent): the same line as in the full print, at the asked indentation
+        cands = ['%s:%d' % (nd.loc, i2) for nd, depth in nodes for i2, d in enumerate(nd.decls) if d.typ in ('int', 'float', 'bool', 'str')]
+        optprints = [[ol, rng.choice([None, 0, 1, 5, 33, 70])] for ol in rng.sample(cands, min(3, len(cands)))]
         # a third of the cases: the context already has a filter while the text is parsed (sections are created under it); it is removed or replaced afterwards
         pre = rng.getrandbits(32) | 1 if rng.random() < 0.35 else None
-        yield {'decls': [d.to_json() for d in decls], 'text': text, 'filters': filters, 'pfs': pfs, 'bodies': bodies, 'fpfs': fpfs, 'pre': pre}
+        yield {'decls': [d.to_json() for d in decls], 'text': text, 'filters': filters, 'pfs': pfs, 'bodies': bodies, 'fpfs': fpfs, 'pre': pre, 'optprints': optprints}
 
 
 def eff_of(loc, filters):
@@ -187,6 +190,9 @@ def script(spec):
     lines.append('dump 0')
     lines.append('note base')
     lines.append('print 0')
+    for ol, ind in spec.get('optprints', []):
+        lines.append('note optprint')
+        lines.append('opt_print %s' % ol if ind is None else 'opt_print_indent %s %d' % (ol, ind))
     for loc, slot, mask in spec['filters']:
         lines.append('set_filter %s %d %d' % (loc, slot, mask))
     lines.append('note filtered')
@@ -239,8 +245,12 @@ def judge(spec, events, death):
             groups[-1].append(e)
     prints = {}
     bodies = []
+    optouts = []
     for g in groups:
         p = [e for e in g[1:] if e.get('ev') == 'print']
+        if g[0] == 'optprint':
+            optouts.append(unhx(p[0]['out']) if p else None)
+            continue
         if g[0] == 'body':
             bodies.append(unhx(p[0]['out']) if p else None)
         elif p:
@@ -269,6 +279,17 @@ def judge(spec, events, death):
             unset = True
     if v.viol:
         return v
+    # (2b) one option printed on its own
+    _, blines, bpair, _ = results['base']
+    for (ol, ind), out in zip(spec.get('optprints', []), optouts):
+        rec = next(((e, g) for e, g in bpair if e.get('loc') == ol and e['kind'] in ('scalar', 'list')), None)
+        if rec is None or out is None:
+            continue
+        want = '  ' * (ind or 0) + blines[rec[1]['line']].lstrip(' ') + '\n'
+        v.notes['single_option_prints'] = v.notes.get('single_option_prints', 0) + 1
+        if out != want:
+            v.bad('option-print:%s' % ('plain' if ind is None else 'indent'), 'option %s printed on its own (%s) gives %r, its line in the full print is %r' % (
+                rec[0]['name'], 'cfg_opt_print' if ind is None else 'cfg_opt_print_indent %d' % ind, out[:120], want[:120]))
     # (3) section bodies equal cfg_print_indent of the instance under the effective filter
     recs, lines, pair, _ = results['filtered']
     for (loc, depth, indent), body in zip(spec['bodies'], bodies):
